@@ -8,4 +8,23 @@
  * request_id is stale (recorded, but released in the map) would later remove an entry that may meanwhile
  * belong to another context. */
 #define REQ_ID_INV(c) ((c)->request_id == 0 || (g_idm_key == (uint64_t) (c)->request_id ==> (g_rr.idm_has && g_rr.idm_val == (void *) (c))))
+/* ---- xreq0_recv_cb: byte facts of the backtrace loop.  i = words moved so far, end = the last moved word
+ * carried the request bit.  (g_k, g_b) = any pre-state body byte (ghost equation in the contract):
+ *   moved bytes are in the header in order, the rest of the body is unchanged,
+ *   none of the words moved before the last has the request bit, the last one has it iff end */
+/* -DXQ_TRACK selects which of the byte facts the invariant carries (a split of the POSTCONDITIONS over two units,
+ * each unit still runs for all inputs): 1 = where the bytes are, 2 = which words carry the request bit, else both */
+#define XQ_LOOP_WHERE(msg, i)                                                                               \
+	(((g_k < 4 * (size_t) (i)) ==> HDR(msg)[g_k] == g_b) &&                                             \
+	    ((g_k >= 4 * (size_t) (i) && g_k < g_len0) ==> (msg)->m_body.ch_ptr[g_k - 4 * (size_t) (i)] == g_b))
+#define XQ_LOOP_CLASS(msg, i, end)                                                                          \
+	(((end) ==> ((i) >= 1 && (g_k == 4 * ((size_t) (i) - 1) ==> RR_HB(g_b)))) &&                           \
+	    (((g_k & 3) == 0 && (g_k >> 2) + ((end) ? 1 : 0) < (size_t) (i)) ==> !RR_HB(g_b)))
+#if XQ_TRACK == 1
+#define XQ_LOOP_BYTES(msg, i, end) (XQ_LOOP_WHERE(msg, i) && ((end) ==> (i) >= 1))
+#elif XQ_TRACK == 2
+#define XQ_LOOP_BYTES(msg, i, end) (XQ_LOOP_CLASS(msg, i, end))
+#else
+#define XQ_LOOP_BYTES(msg, i, end) (XQ_LOOP_WHERE(msg, i) && XQ_LOOP_CLASS(msg, i, end))
+#endif
 #endif
